@@ -108,7 +108,7 @@ Mods(tn, env, v) ==
              et == TY(t.elem.t)
              kd == KeyDom(DictKeyType(t))
              venv == ArgsVal(et.fields[2].na, cenv, et, <<>>)
-         IN (IF Len(v) < MaxLen /\ Len(v) < Len(kd)
+         IN (IF Len(v) < MaxLen /\ Len(v) < Len(kd) /\ (Len(v) = 0 \/ v[Len(v)][1] # <<255>>)   \* keys stay ascending
              THEN {Append(v, <<kd[Len(v) + 1], Default(et.fields[2].t, venv)>>)} ELSE {})
             \cup (IF Len(v) > 0 THEN {SubSeq(v, 1, Len(v) - 1)} ELSE {})
             \* the key of the last element becomes a string that is not valid UTF-8 (it sorts after every
